@@ -3,9 +3,9 @@
    (a) AuthCheck: two accepting openings for the same absorbed root and the same position(s) with different
        opened rows yield an EXPLICIT collision — of the leaf hash (hash_elements of a row) or of merge.
        Single openings: instance of C10's single_binding_paths (Proofs/MerkleSingle.v), no hypothesis.
-       Batch openings (what the verifier really calls): C10 has not proved batch binding (Props/C10.v, "NOT
-       PROVED ... batch_binding"); it is the Section hypothesis [merkle_batch_binding], stated relative to a
-       committed tree of the proof's depth as in C10's comment.  Collision resistance is never assumed.
+       Batch openings (what the verifier really calls): instance of C10's batch_binding_verify_batch
+       (Proofs/MerkleBind.v), relative to a committed tree of the proof's depth; positions are usize values
+       ([usize_list idx]).  No hypothesis; collision resistance is never assumed.
    (b) Absorb: the coin state is a free term over the absorbed values; a different value of an absorbed
        component gives a different term at the moment the positions are drawn.  Whether a different term
        gives different positions is a property of the hash function (probabilistic; exercised by the
@@ -14,7 +14,7 @@
 From Coq Require Import ZArith List Bool Lia.
 From VBase Require Import MachInt.
 From VModel Require Import Merkle Integrity.
-From VProofs Require Import MerkleBase MerkleSingle IntegrityOrder.
+From VProofs Require Import MerkleBase MerkleSingle MerkleTotal MerkleBind IntegrityOrder.
 Import ListNotations.
 
 (* ================================================================================================ (a) *)
@@ -46,28 +46,26 @@ Proof.
   - right. exact C.
 Qed.
 
-(* Batch openings.  C10's unproved statement, relative to a committed tree. *)
-Definition merkle_batch_binding_statement : Prop :=
-  forall (t : mtree D) (d : nat) (idx : list Z) (p : bproof D),
-    wf_tree D d0 merge d t -> (d <= 62)%nat ->
+(* Batch openings: C10's theorem, relative to a committed tree. *)
+Lemma merkle_batch_binding : forall (t : mtree D) (d : nat) (idx : list Z) (p : bproof D),
+    wf_tree D d0 merge d t -> (d <= 62)%nat -> usize_list idx ->
     verify_batch D D_eqb merge (hval D d0 t 1) idx p = Ok tt -> bp_depth p = Z.of_nat d ->
     (forall j i, nth_error idx j = Some i -> nth_error (bp_leaves p) j = nth_error (mt_leaves t) (Z.to_nat i))
     \/ exists c, is_collision D merge c.
-
-Hypothesis merkle_batch_binding : merkle_batch_binding_statement.
+Proof. exact (batch_binding_verify_batch D D_eqb D_eqb_spec d0 merge). Qed.
 
 (* An accepted batch opening of rows [vs] against the root of a committed tree: every opened row hashes to the
    committed leaf of its position, or a collision of merge exists. *)
 Theorem auth_binding_batch_tree : forall t d idx nodes vs,
-  wf_tree D d0 merge d t -> (d <= 62)%nat ->
+  wf_tree D d0 merge d t -> (d <= 62)%nat -> usize_list idx ->
   verify_batch D D_eqb merge (hval D d0 t 1) idx
     {| bp_leaves := map hl vs; bp_nodes := nodes; bp_depth := Z.of_nat d |} = Ok tt ->
   (forall j i v, nth_error idx j = Some i -> nth_error vs j = Some v ->
      nth_error (mt_leaves t) (Z.to_nat i) = Some (hl v))
   \/ exists c, is_collision D merge c.
 Proof.
-  intros t d idx nodes vs WF Hd VB.
-  destruct (merkle_batch_binding t d idx _ WF Hd VB eq_refl) as [H | C]; [left | right; exact C].
+  intros t d idx nodes vs WF Hd Hu VB.
+  destruct (merkle_batch_binding t d idx _ WF Hd Hu VB eq_refl) as [H | C]; [left | right; exact C].
   intros j i v Hi Hv. rewrite <- (H j i Hi). cbn [bp_leaves]. now rewrite nth_error_map, Hv.
 Qed.
 
@@ -75,7 +73,7 @@ Qed.
    opened rows but different rows: an explicit collision — a pair of different rows with the same leaf hash, or a
    collision of merge. *)
 Theorem auth_binding_batch : forall t d idx nodes nodes' vs vs',
-  wf_tree D d0 merge d t -> (d <= 62)%nat ->
+  wf_tree D d0 merge d t -> (d <= 62)%nat -> usize_list idx ->
   verify_batch D D_eqb merge (hval D d0 t 1) idx
     {| bp_leaves := map hl vs; bp_nodes := nodes; bp_depth := Z.of_nat d |} = Ok tt ->
   verify_batch D D_eqb merge (hval D d0 t 1) idx
@@ -84,9 +82,9 @@ Theorem auth_binding_batch : forall t d idx nodes nodes' vs vs',
   (exists j v v', nth_error vs j = Some v /\ nth_error vs' j = Some v' /\ leaf_collision (v, v'))
   \/ exists c, is_collision D merge c.
 Proof.
-  intros t d idx nodes nodes' vs vs' WF Hd V1 V2 L1 L2 Hne.
-  destruct (auth_binding_batch_tree t d idx nodes vs WF Hd V1) as [H1 | C]; [| right; exact C].
-  destruct (auth_binding_batch_tree t d idx nodes' vs' WF Hd V2) as [H2 | C]; [| right; exact C].
+  intros t d idx nodes nodes' vs vs' WF Hd Hu V1 V2 L1 L2 Hne.
+  destruct (auth_binding_batch_tree t d idx nodes vs WF Hd Hu V1) as [H1 | C]; [| right; exact C].
+  destruct (auth_binding_batch_tree t d idx nodes' vs' WF Hd Hu V2) as [H2 | C]; [| right; exact C].
   left.
   assert (HL : length vs = length vs') by lia.
   clear V1 V2 L2.
